@@ -1948,3 +1948,32 @@ Proof.
     repeat split; auto. intros q Hq. apply I3. apply (in_all_ix3 sh); auto.
   - unfold out_iter, out_err, out_x. cbn [fst snd]. repeat split.
 Qed.
+
+(* ------------------------------------------------------------------ PMFs written from a freshly set divergence *)
+Lemma write_pmf_batch2_poisson sc sm (sh : shape2 (T:=R)) st itmax tol x0 err0 :
+  (0 < nxg sh)%Z -> (0 < nyg sh)%Z ->
+  let D := div_value2 Rops sc sm sh st in
+  let o := snd (write_pmf_batch2 Rops sc sm sh st itmax tol x0 err0) in
+  lsumR D (all_ix2 sh) = 0 /\
+  ((1 <= out_iter _ o)%Z -> out_err _ o <= tol ->
+     l2norm Rops _ (all_ix2 sh) (fun p => D p - atimes2 Rops sh (out_x _ o) p) <= tol * l2norm Rops _ (all_ix2 sh) D) /\
+  ((1 <= out_iter _ o)%Z -> out_err _ o = 0 -> forall p, in_pmf2 sh p -> atimes2 Rops sh (out_x _ o) p = D p) /\
+  ((1 <= out_iter _ o < Z.of_nat itmax)%Z -> out_err _ o <= tol \/ out_err _ o = 0).
+Proof.
+  intros Hx Hy. cbv zeta. unfold write_pmf_batch2. cbn [snd].
+  exact (poisson2 sc sm sh Hx Hy (set_div2 Rops sc sm sh st) itmax tol x0 err0 (set_div2_consistent Rops sc sm sh Hx Hy st)).
+Qed.
+
+Lemma write_pmf_batch3_poisson sc sm (sh : shape3 (T:=R)) st itmax tol x0 err0 :
+  (0 < mxg sh)%Z -> (0 < myg sh)%Z -> (0 < mzg sh)%Z ->
+  let D := div_value3 Rops sc sm sh st in
+  let o := snd (write_pmf_batch3 Rops sc sm sh st itmax tol x0 err0) in
+  lsumR D (all_ix3 sh) = 0 /\
+  ((1 <= out_iter _ o)%Z -> out_err _ o <= tol ->
+     l2norm Rops _ (all_ix3 sh) (fun p => D p - atimes3 Rops sh (out_x _ o) p) <= tol * l2norm Rops _ (all_ix3 sh) D) /\
+  ((1 <= out_iter _ o)%Z -> out_err _ o = 0 -> forall p, in_pmf3 sh p -> atimes3 Rops sh (out_x _ o) p = D p) /\
+  ((1 <= out_iter _ o < Z.of_nat itmax)%Z -> out_err _ o <= tol \/ out_err _ o = 0).
+Proof.
+  intros Hx Hy Hz. cbv zeta. unfold write_pmf_batch3. cbn [snd].
+  exact (poisson3 sc sm sh Hx Hy Hz (set_div3 Rops sc sm sh st) itmax tol x0 err0 (set_div3_consistent Rops sc sm sh Hx Hy Hz st)).
+Qed.
